@@ -56,8 +56,8 @@ def main():
         print('suite on the changed copy: %s' % res['suite'])
         demo = os.path.join(d, 'demo.py')
         if os.path.exists(demo):
-            r0, _ = sh('/venv/bin/python %s /repo/src' % demo, cwd='/tmp', timeout=600)
-            r1, o1 = sh('/venv/bin/python %s %s/src' % (demo, scratch), cwd='/tmp', timeout=600)
+            r0, _ = sh('/venv/bin/python %s /repo/src' % demo, cwd='/tmp', timeout=600, env=dict(os.environ, PYTHONPATH='/repo/src'))
+            r1, o1 = sh('/venv/bin/python %s %s/src' % (demo, scratch), cwd='/tmp', timeout=600, env=dict(os.environ, PYTHONPATH=scratch + '/src'))
             res['demo_unchanged'], res['demo_changed'] = r0, r1
             print('demo: unchanged tree exit %d, changed copy exit %d' % (r0, r1))
         checks = ALL if a.all else (a.checks.split(',') if a.checks else meta.get('run_checks', [meta.get('property')]))
